@@ -394,7 +394,12 @@ func (e *vlEnv) observe(ev int, preCancel int) {
 			ctxAlive = true
 		}
 		clean := p.state == "released" && !p.faulted && !p.robbed && !p.cancelled
-		o.P = append(o.P, []int64{vlB(bel), vlB(ctxAlive), vlB(p.excl), vlB(p.robbed), int64(p.stallUsed / time.Millisecond), vlB(clean), vlB(p.faulted), p.newest})
+		// time stalled so far, including the operations that are waiting at a gate right now
+		stall := p.stallUsed
+		for _, w := range p.waiters {
+			stall += time.Since(w.at)
+		}
+		o.P = append(o.P, []int64{vlB(bel), vlB(ctxAlive), vlB(p.excl), vlB(p.robbed), int64(stall / time.Millisecond), vlB(clean), vlB(p.faulted), p.newest})
 	}
 	// keep only the first and the last of a run of observations that differ in nothing but time
 	if n := len(e.obs); n >= 2 && ev == 0 && vlSame(e.obs[n-1], o) && vlSame(e.obs[n-2], o) && e.obs[n-1].Ev == 0 {
